@@ -107,27 +107,88 @@ func c09(p *model.Prog, r *report.Result) {
 	frameKey := p.Field("pkg/mpegts", "Frame", "Key")
 	sidV, sidA := constU(p, "pkg/mpegts", "StreamIdVideo"), constU(p, "pkg/mpegts", "StreamIdAudio")
 	seenV, seenA := false, false
+	// per function of pkg/remux, with its same-package helpers inlined: a helper that fills the
+	// frame gets PID / stream id / key as parameters, resolved at each call site; one group per
+	// (function, call chain)
+	type frameGroup struct {
+		fn         *ssa.Function
+		pids, sids []int64
+		keyStores  []ssa.Instruction
+	}
 	for _, fn := range lalFuncsIn(p, "pkg/remux") {
-		pids := storeConst(fn, framePid)
-		if len(pids) == 0 {
+		if fn.Parent() != nil {
 			continue
 		}
-		sids := storeConst(fn, frameSid)
-		key := fkey(fn, "frame", "pid/sid")
-		okPair := len(pids) == 1 && len(sids) == 1 && ((pids[0] == pidV && sids[0] == sidV) || (pids[0] == pidA && sids[0] == sidA))
-		r.Check(okPair, "C09.R1", key, p.Pos(fn.Pos()), fmt.Sprintf("frames stamped PID 0x%x / stream id 0x%x", pids[0], sids[0]), fmt.Sprintf("frames are stamped with PID %v / stream id %v, not a declared (PID, stream id) pair", pids, sids))
-		if okPair && pids[0] == pidV {
-			seenV = true
-		}
-		if okPair && pids[0] == pidA {
-			seenA = true
-		}
-		// key only on video
-		for _, st := range model.FieldStores(fn, frameKey) {
-			if v, isc := model.ConstBool(st.Val); isc && !v {
+		groups := map[string]*frameGroup{}
+		var order []string
+		model.EachInstrDeep(fn, 1, func(d model.DeepInstr) {
+			st, ok := d.In.(*ssa.Store)
+			if !ok {
+				return
+			}
+			f := model.FieldOf(st.Addr)
+			if f != framePid && f != frameSid && f != frameKey {
+				return
+			}
+			ck := ""
+			for _, c := range d.Chain {
+				ck += p.InstrPos(c) + ">"
+			}
+			g := groups[ck]
+			if g == nil {
+				g = &frameGroup{fn: d.Fn}
+				groups[ck] = g
+				order = append(order, ck)
+			}
+			v := d.Resolve(st.Val)
+			k, isK := model.ConstInt(v)
+			switch f {
+			case framePid:
+				if isK {
+					g.pids = append(g.pids, k)
+				} else if len(d.Chain) > 0 {
+					g.pids = append(g.pids, -1)
+				}
+			case frameSid:
+				if isK {
+					g.sids = append(g.sids, k)
+				} else if len(d.Chain) > 0 {
+					g.sids = append(g.sids, -1)
+				}
+			case frameKey:
+				if b, isc := model.ConstBool(v); isc && !b {
+					return
+				}
+				if _, isPrm := model.Unwrap(v).(*ssa.Parameter); isPrm && len(d.Chain) == 0 {
+					return // the helper on its own: decided at its call sites
+				}
+				g.keyStores = append(g.keyStores, st)
+			}
+		})
+		sort.Strings(order)
+		for _, ck := range order {
+			g := groups[ck]
+			pids, sids := g.pids, g.sids
+			if len(pids) == 0 {
 				continue
 			}
-			r.Check(len(pids) == 1 && pids[0] == pidV, "C09.R1", fkey(fn, "frame", "key-only-video"), p.InstrPos(st), "key flag (PCR carrier) only on the PCR PID", "a frame on a PID other than PCR_PID can be marked key and be given the PCR")
+			key := fkey(fn, "frame", "pid/sid")
+			okPair := len(pids) == 1 && len(sids) == 1 && ((pids[0] == pidV && sids[0] == sidV) || (pids[0] == pidA && sids[0] == sidA))
+			first := int64(-1)
+			if len(sids) > 0 {
+				first = sids[0]
+			}
+			r.Check(okPair, "C09.R1", key, p.Pos(fn.Pos()), fmt.Sprintf("frames stamped PID 0x%x / stream id 0x%x", pids[0], first), fmt.Sprintf("frames are stamped with PID %v / stream id %v, not a declared (PID, stream id) pair", pids, sids))
+			if okPair && pids[0] == pidV {
+				seenV = true
+			}
+			if okPair && pids[0] == pidA {
+				seenA = true
+			}
+			// key only on video
+			for _, st := range g.keyStores {
+				r.Check(len(pids) == 1 && pids[0] == pidV, "C09.R1", fkey(fn, "frame", "key-only-video"), p.InstrPos(st), "key flag (PCR carrier) only on the PCR PID", "a frame on a PID other than PCR_PID can be marked key and be given the PCR")
+			}
 		}
 	}
 	r.Check(seenV && seenA, "C09.R1", "remux|frame|both-tracks", "", "video and audio frame stamping found", "frame stamping for video/audio not found")
